@@ -165,39 +165,44 @@ func HaproxyEndpointFormat(
 
 var (
 	// lastManaged is what the latest successful ManageHAProxyEndpoints asked the proxy to manage.
-	lastManaged      *HAProxyEndpointsRequest
-	lastManagedMutex sync.RWMutex
+	// manageMutex serialises registrations with the deferred un-registrations of earlier reloads,
+	// so that a stale un-registration either runs before a registration or sees its result.
+	lastManaged *HAProxyEndpointsRequest
+	manageMutex sync.Mutex
 )
 
 func ManageHAProxyEndpoints(haproxyEndpoints *HAProxyEndpointsRequest) error {
+	manageMutex.Lock()
+	defer manageMutex.Unlock()
 	err := updateHAProxyEndpoints(haproxyEndpoints)
 	if err != nil {
 		return err
 	}
-	lastManagedMutex.Lock()
 	lastManaged = haproxyEndpoints
-	lastManagedMutex.Unlock()
 	log.Debug().Msg("✍️  Successfully updated endpoints")
 	return nil
 }
 
-// EndpointsStillToUnmanage drops from a deferred un-registration the endpoints which a later
-// reload has registered again in the meantime.
-func EndpointsStillToUnmanage(candidates []*HAProxyEndpointData) []*HAProxyEndpointData {
-	lastManagedMutex.RLock()
-	defer lastManagedMutex.RUnlock()
-	if lastManaged == nil {
-		return candidates
+// UnmanageStaleHAProxyEndpoints performs a deferred un-registration, skipping the endpoints which
+// a later reload has registered again in the meantime.
+func UnmanageStaleHAProxyEndpoints(candidates []*HAProxyEndpointData) error {
+	manageMutex.Lock()
+	defer manageMutex.Unlock()
+	if lastManaged != nil {
+		candidates = EndpointsToUnmanage(candidates, lastManaged.ManagedEndpoints)
 	}
-	return EndpointsToUnmanage(candidates, lastManaged.ManagedEndpoints)
+	return unmanageHAProxyEndpoints(candidates)
 }
 
-// IsManageAllStillRequested tells a deferred unmanage-global whether a later reload has asked
+// UnmanageStaleHAProxyGlobal performs a deferred unmanage-global unless a later reload has asked
 // the proxy to manage everything again in the meantime.
-func IsManageAllStillRequested() bool {
-	lastManagedMutex.RLock()
-	defer lastManagedMutex.RUnlock()
-	return lastManaged != nil && lastManaged.ManageAll
+func UnmanageStaleHAProxyGlobal() error {
+	manageMutex.Lock()
+	defer manageMutex.Unlock()
+	if lastManaged != nil && lastManaged.ManageAll {
+		return nil
+	}
+	return unmanageGlobal()
 }
 
 // EndpointsToUnmanage returns the endpoints of previous which current does not register anymore.
